@@ -14,6 +14,9 @@ import (
 	"strings"
 )
 
+// activeProperty: id of the property being checked ("" in debug / funcs: every clause is read); see only_for.
+var activeProperty = os.Getenv("GOVC_PROP")
+
 // ---------------------------------------------------------------------------
 // Expression AST
 
@@ -150,7 +153,7 @@ var clauseKeywords = map[string]bool{
 	"requires": true, "ensures": true, "loop": true, "nullable": true, "at": true,
 	"ghost": true, "assigns": true, "modular": true, "inline": true, "trusted": true,
 	"mode": true, "alloc_bound": true, "pure": true, "protected_by": true, "immutable": true,
-	"inv": true, "opaque": true, "havoc": true, "noinline": true, "bounded": true, "returns_fresh": true,
+	"only_for": true, "bitprecise": true, "inv": true, "opaque": true, "havoc": true, "noinline": true, "bounded": true, "returns_fresh": true,
 	"sweep": true, "cover": true, "replay_hint": true, "never_writes": true, "frame_only": true, "reveal": true, "iface_calls_only": true, "direct_calls_only": true,
 	"requires_held": true, "unshared_receiver": true, "sync": true, "owner_lock": true, "complete": true,
 }
@@ -194,8 +197,30 @@ func (cs *ContractSet) ParseContractFile(path string, pkgPath string) error {
 	var cur *FuncContract
 	var curType *TypeContract
 	var lastSpec *SpecFunc
+	// only_for Cnn[, Cmm]: the clauses that follow in this function block are read only when the property being
+	// checked is one of the listed ones (activeProperty == "" reads everything: debug, funcs). Lets one property
+	// add clauses to a function that is also a root of another property without changing that property's
+	// obligations.
+	var curOnly map[string]bool
 	for _, l := range lines {
 		word, rest := splitWord(l.text)
+		switch word {
+		case "func", "extern", "type", "spec", "axiom":
+			curOnly = nil
+		case "only_for":
+			if cur == nil {
+				return fmt.Errorf("%s:%d: only_for outside func", path, l.no)
+			}
+			curOnly = map[string]bool{}
+			for _, id := range strings.Split(rest, ",") {
+				curOnly[strings.TrimSpace(id)] = true
+			}
+			continue
+		default:
+			if cur != nil && curOnly != nil && activeProperty != "" && !curOnly[activeProperty] {
+				continue
+			}
+		}
 		if strings.HasSuffix(word, ":") && clauseKeywords[strings.TrimSuffix(word, ":")] {
 			word, rest = strings.TrimSuffix(word, ":"), ":"+rest
 		}
